@@ -236,6 +236,24 @@ def gen_T16():
          in ast.unparse(find_def(d, 'addBan', 'IrcChannel')), 'IrcChannel.addBan changed')
     need("assert ircutils.isUserHostmask(hostmask), 'got %s' % hostmask\n    self.ignores[hostmask] = int(expiration)"
          in ast.unparse(find_def(d, 'addIgnore', 'IrcChannel')), 'IrcChannel.addIgnore changed')
+    # IrcUser.addNick / removeNick: statement order around the refusal path (pinned, fail-closed)
+    addnick = find_def(d, 'addNick', 'IrcUser')
+    stm = [ast.unparse(x) for x in addnick.body if not (isinstance(x, ast.Expr) and isinstance(x.value, ast.Constant))]
+    chk = [i for i, x in enumerate(stm) if x.startswith('if users.getUserFromNick(network, nick) is not None:') and 'raise KeyError' in x]
+    need(len(chk) == 1, 'IrcUser.addNick: the "nick already taken" check changed: %r' % stm)
+    touch = lambda x: 'self.nicks' in x and ('setdefault' in x or 'self.nicks[network] =' in x or 'append' in x)
+    before, after = [x for x in stm[:chk[0]] if touch(x)], [x for x in stm[chk[0] + 1:]]
+    need(all(x in ('nicks = self.nicks.setdefault(network, [])',) for x in before), 'IrcUser.addNick mutates before the check in an unknown way: %r' % before)
+    need(any('append(nick)' in x for x in after) and not any('raise' in x for x in after), 'IrcUser.addNick tail changed: %r' % after)
+    need([x for x in stm[:chk[0]] if not touch(x)] == ['global users', 'assert isinstance(network, minisix.string_types)',
+                                                       "assert ircutils.isNick(nick), 'got %s' % nick"], 'IrcUser.addNick head changed: %r' % stm)
+    addnick_pre = bool(before)
+    rn = ast.unparse(find_def(d, 'removeNick', 'IrcUser'))
+    need('if nick not in self.nicks[network]:\n        raise KeyError\n    self.nicks[network].remove(nick)' in rn, 'IrcUser.removeNick changed: ' + rn)
+    removenick_drops = 'if not self.nicks[network]:' in rn and 'del self.nicks[network]' in rn
+    need(removenick_drops or rn.rstrip().endswith('self.nicks[network].remove(nick)'), 'IrcUser.removeNick tail changed: ' + rn)
+    gu = ast.unparse(find_def(d, 'getUserFromNick', 'UsersDictionary'))
+    need('for user in self.users.values():' in gu and 'if nick in user.nicks[network]:' in gu and 'except KeyError' in gu, 'getUserFromNick changed')
     out = 'Definition FOLD : list (N * N) := %s.\n' % clist('(%d, %d)' % (ord(x), ord(y)) for x, y in fold)
     out += 'Definition WHITESPACE : list N := %s.\n' % clist(cN(i) for i in ws)
     out += 'Definition CHANTYPES : list N := %s.\n' % cstr(defaults[0])
@@ -249,6 +267,10 @@ def gen_T16():
         out += 'Definition CONF_READ_%s : list (list N) := %s.  (* %s *)\n' % (lab, clist(cstr(x) for x in val), ', '.join(val) or 'none')
     out += 'Definition CHAN_READER_BAN_VIA_SETTER : bool := %s.\nDefinition CHAN_READER_IGN_VIA_SETTER : bool := %s.\n' % (
         'true' if via['ban'] else 'false', 'true' if via['ignore'] else 'false')
+    out += 'Definition ADDNICK_LIST_BEFORE_CHECK : bool := %s.  (* addNick creates nicks[network] before the "already taken" check *)\n' % (
+        'true' if addnick_pre else 'false')
+    out += 'Definition REMOVENICK_DROPS_EMPTY : bool := %s.  (* removeNick deletes nicks[network] with its last nick *)\n' % (
+        'true' if removenick_drops else 'false')
     out += '(* writer keywords, from the format strings of the preserve/flush methods *)\n'
     out += 'Definition WH_user : list N := %s.\nDefinition WH_channel : list N := %s.\nDefinition WH_network : list N := %s.\n' % (
         cstr(hu), cstr(hc), cstr(hn))
